@@ -113,6 +113,11 @@ func (conv *converter) ConvertFile(f *ast.File) *ir.File {
 			continue
 		}
 
+		if funcDecl.Body == nil {
+			// Valid Go (a function implemented elsewhere), but there is nothing to convert or to compile.
+			panic(conv.errorf(funcDecl, "%s: a function without a body is not supported", funcDecl.Name))
+		}
+
 		if funcDecl.Name.String() == "init" {
 			conv.convertInitFunc(result, funcDecl)
 			continue
